@@ -759,4 +759,11 @@ def r10_values_as_written(ctx):
     r7_range_expressions(ctx)
 
 
-RULES = [r10_values_as_written, r9_dask_column_cursor, r8_parameters_applied_in_given_order, r7_dask_grid_labels, r1_enabled_filter, r2_run_space, r3_column_cursor, r4_entry_wiring, r5_names_and_zips, r6_validation_first]
+def r11_swept_readout_is_applied(ctx):
+    """"Runs exactly the requested parameter space": a swept observation.readout.times reaches the run on the sequential and on the dask path (shared with C07.R13)."""
+    from props.C07 import r13_swept_readout_reaches_both_paths
+
+    r13_swept_readout_reaches_both_paths(ctx)
+
+
+RULES = [r11_swept_readout_is_applied, r10_values_as_written, r9_dask_column_cursor, r8_parameters_applied_in_given_order, r7_dask_grid_labels, r1_enabled_filter, r2_run_space, r3_column_cursor, r4_entry_wiring, r5_names_and_zips, r6_validation_first]
